@@ -116,4 +116,114 @@ THEOREM RemaindersStep ==
     BY <1>7, <2>2, <2>3, <2>4, <2>5, <1>1, <1>0, SMT
 <1>8. QED
   BY <1>6, <1>7
+-----------------------------------------------------------------------------
+(* The other direction: ENcoding a symbol onto an arbitrary valid remainders *)
+(* head (with an optional refill of one word) and decoding it again restores *)
+(* the head and the word, the flush happening exactly when the refill        *)
+(* happened - what makes a chain coder's encode-then-decode an identity.     *)
+LEMMA LtLe == ASSUME NEW a \in Nat, NEW b \in Nat, NEW d \in Nat, a < b, d >= b PROVE a < d /\ ~(a >= b)
+  OBVIOUS
+
+THEOREM RemaindersStepRev ==
+    ASSUME NEW Th \in Nat, NEW B \in Nat, Th >= 1, B >= 1,
+           NEW hr \in Nat, hr >= Th, hr < Th * B,                 \* head invariant
+           NEW c \in Nat, NEW p \in Nat, p >= 1, p <= B,
+           NEW w \in Nat, w < B                                   \* the word on top of the remainders bulk (if any)
+    PROVE  LET refill == hr < p * Th                              \* ChainEnc: NeedsRefill
+               hr0 == IF refill THEN hr * B + w ELSE hr
+               q == c + (hr0 % p)                                 \* the quantile pushed onto the compressed side
+               hr1 == hr0 \div p
+               hd == hr1 * p + (q - c)                            \* ChainDec on the result, pulling q back
+               flush == hd >= Th * B
+           IN /\ hr1 >= Th /\ hr1 < Th * B                        \* invariant kept
+              /\ q >= c /\ q < c + p                              \* the quantile lies in the slot
+              /\ hd = hr0
+              /\ flush <=> refill                                 \* the decoder flushes exactly when the encoder refilled
+              /\ refill => (hd % B = w /\ hd \div B = hr)         \* ... writes back the same word and restores the head
+              /\ ~refill => hd = hr
+<1> DEFINE refill == hr < p * Th
+<1> DEFINE hr0 == IF refill THEN hr * B + w ELSE hr
+<1> DEFINE r == hr0 % p
+<1> DEFINE q == c + r
+<1> DEFINE hr1 == hr0 \div p
+<1> DEFINE hd == hr1 * p + (q - c)
+<1> DEFINE flush == hd >= Th * B
+<1>0. /\ B > 0 /\ p > 0 /\ Th > 0
+      /\ hr * B \in Nat /\ Th * B \in Nat /\ p * Th \in Nat /\ Th * p \in Nat /\ p * Th = Th * p
+  BY SMT
+<1>1. hr0 \in Nat
+  BY <1>0
+<1>2. hr0 = p * hr1 + r /\ r < p /\ r \in Nat /\ hr1 \in Nat
+  BY <1>0, <1>1, DivModFacts
+<1>3. hd = hr0 /\ q >= c /\ q < c + p
+  <2>1. hr1 * p = p * hr1
+    BY <1>2, SMT
+  <2>2. q - c = r
+    BY <1>2, SMT
+  <2>3. QED
+    BY <2>1, <2>2, <1>2, SMT
+<1>4. Th * p <= Th * B /\ (Th * B) * p \in Nat /\ (Th * B) * p >= Th * B
+  <2>1. B * Th >= p * Th
+    BY MulMono
+  <2>2. B * Th = Th * B
+    BY SMT
+  <2>3. p * (Th * B) >= 1 * (Th * B)
+    BY <1>0, MulMono
+  <2>4. p * (Th * B) = (Th * B) * p /\ 1 * (Th * B) = Th * B /\ (Th * B) * p \in Nat
+    BY <1>0, SMT
+  <2>5. QED
+    BY <2>1, <2>2, <2>3, <2>4, <1>0
+<1>5. CASE refill
+  <2>1. hr0 = hr * B + w
+    BY <1>5
+  <2>2. hr * B >= Th * B
+    BY MulMono
+  <2>3. hr0 >= Th * B
+    BY <2>1, <2>2, <1>0, SMT
+  <2>4. hr0 < (Th * B) * p
+    <3>1. hr + 1 <= p * Th /\ hr + 1 \in Nat
+      BY <1>5, <1>0, SMT
+    <3>2. (p * Th) * B >= (hr + 1) * B
+      BY <3>1, <1>0, MulMono
+    <3>3. (hr + 1) * B = hr * B + B
+      BY MulSucc
+    <3>4. (p * Th) * B = (Th * B) * p
+      BY SMT
+    <3>5. QED
+      BY <2>1, <3>2, <3>3, <3>4, <1>0, <1>4, SMT
+  <2>5. hr1 < Th * B
+    BY <2>4, <1>0, <1>1, DivLt
+  <2>6. hr1 >= Th
+    <3>1. hr0 >= Th * p
+      BY <2>3, <1>4, <1>0, <1>1, SMT
+    <3>2. QED
+      BY <3>1, <1>0, <1>1, DivGe
+  <2>7. (hr * B + w) \div B = hr /\ (hr * B + w) % B = w
+    BY <1>0, DivModUnique
+  <2>8. QED
+    BY <1>5, <2>1, <2>3, <2>5, <2>6, <2>7, <1>3
+<1>6. CASE ~refill
+  <2>1. hr0 = hr
+    BY <1>6
+  <2>2. hr >= Th * p
+    BY <1>6, <1>0, SMT
+  <2>3. hr1 >= Th
+    BY <2>1, <2>2, <1>0, DivGe
+  <2>4. hr < (Th * B) * p /\ ~(hr >= Th * B)
+    BY <1>4, <1>0, LtLe
+  <2>5. hr1 < Th * B
+    <3>1. hr \div p < Th * B
+      BY <2>4, <1>0, DivLt
+    <3>2. hr1 = hr \div p
+      BY <2>1
+    <3>3. QED
+      BY <3>1, <3>2
+  <2>6. hd = hr /\ ~flush
+    BY <2>1, <2>4, <1>3
+  <2>7. (flush <=> refill) /\ (refill => (hd % B = w /\ hd \div B = hr)) /\ (~refill => hd = hr)
+    BY <1>6, <2>6
+  <2>8. QED
+    BY <2>1, <2>3, <2>5, <2>7, <1>3
+<1>7. QED
+  BY <1>5, <1>6
 =============================================================================
